@@ -616,7 +616,7 @@ class EntryGraph:
         saved = self._mu_seen
         self._mu_seen = set()
         body = ctx.body
-        rd = reaching(body, bb, idx, local)
+        rd = self._live_defs(ctx, reaching(body, bb, idx, local))
         outs = []
         argc = body.get('argc', 0)
         if not rd:
@@ -640,6 +640,17 @@ class EntryGraph:
             self._term_cache[ck] = t
         self._mu_seen = saved | pending
         return t
+
+    def _live_defs(self, ctx, rd):
+        """reaching definitions located in blocks that the abstract exploration never enters in this calling context cannot contribute
+        a value (e.g. the other arm of a `match` on an enum whose variant the caller fixed): drop them from the phi"""
+        if not rd or ctx.id < 0 or len(rd) < 2:
+            return rd
+        ns = getattr(self, 'node_states', None)
+        if not ns:
+            return rd
+        live = [d for d in rd if (ctx.id, ctx.body['defs'][d]['bb']) in ns]
+        return frozenset(live) if live else rd
 
     def param_term(self, ctx, local, depth):
         if ctx.parent is None:
@@ -818,7 +829,7 @@ class EntryGraph:
             if key in seen:
                 return
             seen = seen | {key}
-            rd = reaching(c.body, b, i, l)
+            rd = self._live_defs(c, reaching(c.body, b, i, l))
             if not rd:
                 if 1 <= l <= c.body.get('argc', 0) and c.parent is not None and c.closure_call != 'leafclosure':
                     p = c.parent
@@ -1238,6 +1249,11 @@ class EntryGraph:
                 out.append((cid, t['otherwise'], dict(env), 'otherwise'))
         elif k == 'return':
             v0 = env.get((cid, 0))
+            if v0 is not None and v0[0] == 'bs':
+                # a comparison result returned after it was tested on this path: its value is known here
+                known = env.get(('A', v0[1]))
+                if known is not None:
+                    v0 = ('b', (not known[1]) if v0[2] else known[1])
             if ctx.parent is None:
                 kind = 'ok'
                 if v0 is not None and v0[0] == 't' and body['locals'][0].startswith('core::result::Result<') and v0[1] == 1:
